@@ -284,3 +284,224 @@ Proof.
   repeat match goal with |- context [if ?c then _ else _] => destruct c end;
     rewrite ?fv_make_ready; reflexivity.
 Qed.
+
+(* ---- eventfd_grab: the new value of eventfd_in_use is a function of the oracle and the old value ---- *)
+Definition grab_flag (f : faults) (u : Z) : Z :=
+  let old (u : Z) := if u =? 0 then 0 else if emfile f then u else if no_eventfd f then 0 else u in
+  if u =? 2 then (if emfile f then 2 else if no_eventfd f || no_eventfd2 f then old 1 else 2) else old u.
+
+Lemma grab_spec : forall k u k1 r u', eventfd_grab k u = (k1, r, u') ->
+  flt k1 = flt k /\ u' = grab_flag (flt k) u.
+Proof.
+  intros k u k1 r u' H. unfold eventfd_grab, k_eventfd, k_alloc, grab_flag in *.
+  destruct (u =? 2) eqn:E2; destruct (emfile (flt k)) eqn:EM; destruct (no_eventfd (flt k)) eqn:NE;
+    destruct (no_eventfd2 (flt k)) eqn:NE2; destruct (u =? 0) eqn:E0; cbn in H;
+    rewrite ?EM, ?NE, ?NE2 in H; cbn in H; inversion H; subst; split; reflexivity.
+Qed.
+
+Lemma grab_flag_le : forall f u, efd_le (grab_flag f u) u.
+Proof.
+  intros f u. unfold grab_flag, efd_le.
+  destruct (u =? 2) eqn:E2; destruct (emfile f); destruct (no_eventfd f); destruct (no_eventfd2 f);
+    destruct (u =? 0) eqn:E0; cbn; lia.
+Qed.
+
+Lemma grab_flag_idem : forall f u, grab_flag f (grab_flag f u) = grab_flag f u.
+Proof.
+  intros f u. unfold grab_flag.
+  destruct (u =? 2) eqn:E2; destruct (emfile f); destruct (no_eventfd f); destruct (no_eventfd2 f);
+    destruct (u =? 0) eqn:E0; cbn; rewrite ?E2, ?E0; cbn; try reflexivity; try lia.
+Qed.
+
+(* ---- small pieces of Core/CoreModel.v ---- *)
+Lemma fv_validate : forall s, fv (validate_now s) = fv s.
+Proof. intro s. unfold validate_now. destruct (time_valid s); reflexivity. Qed.
+Lemma fv_invalidate : forall s, fv (invalidate_now s) = fv s. Proof. reflexivity. Qed.
+Lemma fv_to_relative : forall s abs, fv (fst (to_relative s abs)) = fv s.
+Proof. intros. unfold to_relative. destruct abs; simpl; [apply fv_validate|reflexivity]. Qed.
+Lemma fv_to_msec : forall s abs, fv (fst (to_msec s abs)) = fv s.
+Proof.
+  intros. unfold to_msec. pose proof (fv_to_relative s abs) as H.
+  destruct (to_relative s abs) as [s1 [r|]]; exact H.
+Qed.
+Lemma Kr_lift_heap : forall s o, Kr s (lift_heap s o).
+Proof. intros. unfold lift_heap. destruct o; reflexivity. Qed.
+Lemma fv_task_register : forall s k, fv (task_register s k) = fv s.
+Proof.
+  intros. unfold task_register. cbn.
+  destruct (cur s); [|reflexivity]. match goal with |- context [if ?c then _ else _] => destruct c end; reflexivity.
+Qed.
+Lemma fv_task_unregister : forall s k, fv (task_unregister s k) = fv s. Proof. reflexivity. Qed.
+Lemma fv_do_close : forall s fd, fv (do_close s fd) = fv s.
+Proof.
+  intros. unfold do_close. pose proof (flt_close (kern s) fd) as F.
+  destruct (k_close (kern s) fd) as [k1 ok]. simpl in F. destruct ok; unfold fv; cbn; rewrite F; reflexivity.
+Qed.
+Lemma fv_raw_post : forall s j, fv (raw_post s j) = fv s.
+Proof.
+  intros. unfold raw_post.
+  destruct (efd_raw s =? 0);
+    match goal with |- context [k_write ?a ?b ?c ?d] => pose proof (flt_write a b c d) as F; destruct (k_write a b c d) as [k1 x] end;
+    simpl in F; apply fv_kern; exact F.
+Qed.
+Lemma fv_event_post : forall s j, fv (event_post s j) = fv s.
+Proof.
+  intros. unfold event_post. destruct (ev_on_list s j); [reflexivity|].
+  match goal with |- context [if ?c then _ else _] => destruct c end; [rewrite fv_task_register|]; reflexivity.
+Qed.
+Lemma Kr_raw_unregister : forall s j, Kr s (raw_unregister s j).
+Proof.
+  intros. unfold raw_unregister. apply Kr_bind; [apply Kr_fd_unregister|]. intro s1. unfold Kr. simpl.
+  destruct (efd_raw (do_close s1 (rw_rfd s1 j)) =? 0).
+  - transitivity (fv (do_close s1 (rw_rfd s1 j))); [|apply fv_do_close].
+    transitivity (fv (do_close (do_close s1 (rw_rfd s1 j)) (rw_wfd (do_close s1 (rw_rfd s1 j)) j))); [reflexivity|apply fv_do_close].
+  - transitivity (fv (do_close s1 (rw_rfd s1 j))); [reflexivity|apply fv_do_close].
+Qed.
+
+(* ---- the operations that write a flag ---- *)
+Ltac facts :=
+  repeat match goal with
+  | E : eventfd_grab _ _ = (_, _, _) |- _ => apply grab_spec in E; destruct E
+  | E : k_pipe ?k = (_, _) |- _ =>
+      let F := fresh "F" in pose proof (flt_pipe k) as F; rewrite E in F; simpl in F; clear E
+  | E : k_write ?k ?a ?b ?c = (_, _) |- _ =>
+      let F := fresh "F" in pose proof (flt_write k a b c) as F; rewrite E in F; simpl in F; clear E
+  | E : k_read ?k ?a ?b = (_, _) |- _ =>
+      let F := fresh "F" in pose proof (flt_read k a b) as F; rewrite E in F; simpl in F; clear E
+  | E : k_timerfd_create ?k = (_, _) |- _ =>
+      let F := fresh "F" in pose proof (flt_timerfd_create k) as F; rewrite E in F; simpl in F; clear E
+  | E : ctl_retry _ _ _ _ _ = (_, _) |- _ => apply fv_ctl_retry in E
+  | E : fd_register ?s ?k = _ |- _ =>
+      let F := fresh "F" in pose proof (Kr_fd_register s k) as F; rewrite E in F; unfold Kr in F; simpl in F; clear E
+  end.
+
+Ltac fvs :=
+  unfold fv;
+  cbn [pwait2 efd_epoll efd_raw method use_raw kern trace
+       set_fdt set_active set_handled set_numfds set_last_abs set_method set_notify set_epoll set_efd
+       set_activewr set_activefd set_poll set_quit set_numobjs set_heap set_time set_tasks set_epoch
+       set_evlists set_ev set_rw set_kern set_trace set_invoc emit putfd].
+
+(* iv_event_raw_register: eventfd_in_use of iv_event_raw_posix.c becomes grab_flag(oracle, old
+   value); nothing else moves *)
+Lemma raw_register_fv : forall s j,
+  fv (res_state (fst (raw_register s j))) =
+  (pwait2 s, efd_epoll s, grab_flag (flt (kern s)) (efd_raw s), method s, use_raw s, flt (kern s)).
+Proof.
+  intros s j. unfold raw_register. cbv zeta.
+  set (tgt := (pwait2 s, efd_epoll s, grab_flag (flt (kern s)) (efd_raw s), method s, use_raw s, flt (kern s))).
+  assert (T : forall s1 (got : option (Z * Z)), fv s1 = tgt ->
+    fv (res_state (fst (match got with
+        | None => (R s1, true)
+        | Some (rfd, wfd) =>
+            (bind (fd_register (putfd s1 (RAW_KEY j) (fd_with_handlers (fd_fresh rfd (1000 + j)) (Some (H_RAW j)) None None))
+                               (RAW_KEY j))
+                  (fun s0 => R (set_rw s0 (upd (rw_reg s0) j true) (upd (rw_rfd s0) j rfd) (upd (rw_wfd s0) j wfd))), false)
+        end))) = tgt).
+  { intros s1 got H1. destruct got as [[rfd wfd]|]; [|exact H1]. cbn [fst]. rewrite <- H1.
+    apply (Kr_bind s1); [eapply Kr_trans; [|apply Kr_fd_register]; reflexivity|intro; reflexivity]. }
+  assert (T2 : forall s1 (got : option (Z * Z)), fv s1 = tgt ->
+    fv (res_state (fst (
+      let '(s2, got2, failed2) :=
+        match got with
+        | Some p => (s1, Some p, false)
+        | None =>
+            if efd_raw s1 =? 0 then
+              match k_pipe (kern s1) with
+              | (k1, Some (r, w)) => (set_kern s1 k1, Some (r, w), false)
+              | (k1, None) => (set_kern s1 k1, None, true)
+              end
+            else (s1, None, true)
+        end in
+      match got2 with
+      | None => (R s2, true)
+      | Some (rfd, wfd) =>
+          (bind (fd_register (putfd s2 (RAW_KEY j) (fd_with_handlers (fd_fresh rfd (1000 + j)) (Some (H_RAW j)) None None))
+                             (RAW_KEY j))
+                (fun s0 => R (set_rw s0 (upd (rw_reg s0) j true) (upd (rw_rfd s0) j rfd) (upd (rw_wfd s0) j wfd))), false)
+      end))) = tgt).
+  { intros s1 got H1. destruct got as [p0|]; [apply (T s1 (Some p0) H1)|].
+    destruct (efd_raw s1 =? 0); [|apply (T s1 None H1)].
+    pose proof (flt_pipe (kern s1)) as F. destruct (k_pipe (kern s1)) as [k1 [[r w]|]]; simpl in F.
+    - apply (T (set_kern s1 k1) (Some (r, w))). rewrite <- H1. apply fv_kern. exact F.
+    - apply (T (set_kern s1 k1) None). rewrite <- H1. apply fv_kern. exact F. }
+  destruct (negb (efd_raw s =? 0)) eqn:E0.
+  - destruct (eventfd_grab (kern s) (efd_raw s)) as [[k1 r] u] eqn:G. apply grab_spec in G. destruct G as [F U].
+    assert (H1 : fv (set_efd (set_kern s k1) (efd_epoll s) u) = tgt).
+    { unfold tgt. fvs. rewrite F, U. reflexivity. }
+    destruct r as [fd|e]; cbv beta iota.
+    + apply (T2 _ (Some (fd, fd)) H1).
+    + destruct (negb (is_enosys e)); [exact H1|apply (T2 _ None H1)].
+  - cbv beta iota. apply (T2 s None). unfold tgt. apply negb_false_iff in E0. apply Z.eqb_eq in E0.
+    rewrite E0. unfold fv. rewrite E0. reflexivity.
+Qed.
+
+Lemma FL_efd : forall s s' e1 e2,
+  fv s' = (pwait2 s, e1, e2, method s, use_raw s, flt (kern s)) ->
+  efd_le e1 (efd_epoll s) -> efd_le e2 (efd_raw s) -> FL s s'.
+Proof.
+  intros s s' e1 e2 H L1 L2. unfold fv in H. inversion H. constructor; try congruence.
+  - rewrite H4. apply method_le_refl.
+Qed.
+
+Lemma FLr_raw_register : forall s j, FLr s (fst (raw_register s j)).
+Proof.
+  intros. unfold FLr. eapply FL_efd; [apply raw_register_fv|apply efd_le_refl|apply grab_flag_le].
+Qed.
+
+(* iv_fd_epoll_event_rx_on: eventfd_in_use of iv_fd_epoll.c becomes grab_flag(oracle, old value)
+   when the shared kick descriptor is created; nothing else moves *)
+Lemma rx_on_fv : forall s,
+  fv (res_state (fst (event_rx_on s))) =
+  (pwait2 s, (if active_ref s =? 0 then grab_flag (flt (kern s)) (efd_epoll s) else efd_epoll s),
+   efd_raw s, method s, use_raw s, flt (kern s)).
+Proof.
+  intros s. unfold event_rx_on. cbv zeta.
+  set (tgt := (pwait2 s, (if active_ref s =? 0 then grab_flag (flt (kern s)) (efd_epoll s) else efd_epoll s),
+               efd_raw s, method s, use_raw s, flt (kern s))).
+  assert (T : forall r, fv (res_state r) = tgt ->
+    fv (res_state (fst (match r with
+      | Halt s0 => (Halt s0, true)
+      | R s0 =>
+          let '(s1, e) := ctl_retry (set_activefd s0 (active_fd s0) (active_ref s0 + 1)) CTL_ADD
+                                    (active_fd (set_activefd s0 (active_fd s0) (active_ref s0 + 1))) 0 (-1) in
+          match e with
+          | None => (R (set_numobjs s1 (numobjs s1 + 1)), false)
+          | Some _ => (R s1, true)
+          end
+      end))) = tgt).
+  { intros r H. destruct r as [s0|s0]; [|exact H]. simpl in H.
+    match goal with |- context [ctl_retry ?a ?b ?c ?d ?e] => destruct (ctl_retry a b c d e) as [s1 e1] eqn:E end.
+    apply fv_ctl_retry in E. destruct e1; cbn [fst res_state]; rewrite <- H;
+      (transitivity (fv s1); [reflexivity|rewrite E; reflexivity]). }
+  apply T. destruct (active_ref s =? 0) eqn:E0; [|reflexivity].
+  destruct (eventfd_grab (kern s) (efd_epoll s)) as [[k1 r] u] eqn:G. apply grab_spec in G. destruct G as [F U].
+  destruct r as [fd|e].
+  - pose proof (flt_write k1 fd 8 1) as F2. destruct (k_write k1 fd 8 1) as [k2 x]. simpl in F2.
+    cbn [res_state]. unfold tgt. fvs. rewrite F2, F, U. reflexivity.
+  - fvs. pose proof (flt_pipe k1) as F2. destruct (k_pipe k1) as [k2 [[r w]|]]; simpl in F2.
+    + pose proof (flt_write k2 w 1 0) as F3. destruct (k_write k2 w 1 0) as [k3 wr]. simpl in F3.
+      destruct wr; unfold halt; cbn [res_state]; unfold tgt; fvs; rewrite F3, F2, F, U; reflexivity.
+    + unfold halt; cbn [res_state]; unfold tgt; fvs; rewrite F2, F, U; reflexivity.
+Qed.
+
+Lemma FLr_rx_on : forall s, FLr s (fst (event_rx_on s)).
+Proof.
+  intros. unfold FLr. eapply FL_efd; [apply rx_on_fv| |apply efd_le_refl].
+  destruct (active_ref s =? 0); [apply grab_flag_le|apply efd_le_refl].
+Qed.
+
+Lemma Kr_rx_off : forall s, Kr s (event_rx_off s).
+Proof.
+  intros. unfold event_rx_off.
+  match goal with |- context [ctl_retry ?a ?b ?c ?d ?e] => destruct (ctl_retry a b c d e) as [s1 e1] eqn:E end.
+  apply fv_ctl_retry in E. destruct e1; [unfold Kr, halt; simpl; rewrite <- E; reflexivity|].
+  unfold Kr. cbn [res_state]. rewrite <- E.
+  set (s2 := set_activefd s1 (active_fd s1) (active_ref s1 - 1)).
+  assert (F2 : fv s2 = fv s1) by reflexivity. rewrite <- F2. clearbody s2.
+  destruct (active_ref s2 =? 0); [|reflexivity].
+  destruct (active_wr (do_close s2 (active_fd s2)) =? -1).
+  - transitivity (fv (do_close s2 (active_fd s2))); [reflexivity|apply fv_do_close].
+  - transitivity (fv (do_close (do_close s2 (active_fd s2)) (active_wr (do_close s2 (active_fd s2)))));
+      [reflexivity|rewrite fv_do_close; apply fv_do_close].
+Qed.
